@@ -73,6 +73,8 @@ def f0_addition(rng, t, i):
     """a rule of the fragment F0' as a Rule object (so that the Lean model can be fed the same entry), incl. shapes the
     model rejects"""
     r = rng.random()
+    if not [c for c in t.chars() if c != 0x20]:
+        r = 0.0
     if r < 0.35:
         c = 0x0400 + (i % 0x300)
         op = rng.choice(["letter", "lowercase", "sign", "punctuation", "math", "digit", "litdigit", "space", "uppercase"])
@@ -145,21 +147,27 @@ def build_sequences(rng, quick):
         seqs.append(s)
         return s
     if quick:
-        mk("empty", "general", 0); mk("empty", "general", 120); mk("empty", "f0", 150)
-        mk("gen", "f0", 200, "f0"); mk("gen", "general", 160, "mixed"); mk("gen", "general", 120, "extras")
-        mk("gen", "fresh", 80, "f0"); mk("gen", "fresh", 80, "multipass")
-        for tn in ["en-us-g1.ctb", "es-g1.ctb", "fr-bfu-comp6.utb"]:
-            mk("shipped", "general", 90, tn)
-        mk("shipped", "fresh", 60, "en-us-g2.ctb")
+        mk("empty", "general", 0); mk("empty", "general", 120); mk("empty", "f0", 150); mk("empty", "general", 200)
+        for _ in range(6):
+            mk("gen", "f0", rng.randint(0, 200), "f0")
+        for k in ["mixed", "extras", "multipass", "onetoone", "extras", "mixed"]:
+            mk("gen", "general", rng.randint(40, 200), k)
+        for k in ["f0", "multipass", "mixed", "f0"]:
+            mk("gen", "fresh", rng.randint(30, 100), k)
+        for tn in ["en-us-g1.ctb", "es-g1.ctb", "fr-bfu-comp6.utb", "en-us-comp8.ctb", "cs-g1.ctb", "unicode-braille.utb", "nl-NL-g0.utb",
+                   "en-ueb-g1.ctb", "de-g0.utb"]:
+            if os.path.exists(os.path.join(corpus.TABLES, tn)):
+                mk("shipped", "general", rng.randint(40, 120), tn)
+        mk("shipped", "fresh", 60, "en-us-g2.ctb"); mk("shipped", "fresh", 40, "en-gb-g1.utb")
     else:
         mk("empty", "general", 0)
         for _ in range(6):
             mk("empty", rng.choice(["general", "f0"]), rng.randint(1, 200))
-        for _ in range(30):
+        for _ in range(150):
             mk("gen", "f0", rng.randint(0, 200), "f0")
-        for k in ["mixed", "extras", "multipass", "f0", "onetoone"] * 5:
+        for k in ["mixed", "extras", "multipass", "f0", "onetoone"] * 30:
             mk("gen", "general", rng.randint(20, 200), k)
-        for k in ["f0", "multipass", "mixed"] * 4:
+        for k in ["f0", "multipass", "mixed"] * 20:
             mk("gen", "fresh", rng.randint(20, 120), k)
         for tn in ["en-us-g1.ctb", "en-us-g2.ctb", "es-g1.ctb", "fr-bfu-comp6.utb", "en-gb-g1.utb", "cs-g1.ctb", "nl-NL-g0.utb",
                    "en-us-comp6.ctb", "de-g0.utb", "unicode-braille.utb", "en-ueb-g1.ctb", "it-it-comp6.utb"]:
@@ -227,7 +235,7 @@ def run(tier):
                 s.mprobes.append(bwd(s.base, [c for c in cells if c != 0x8000] or [0x8001]))
         s.A = {}
         for ci, k in enumerate(s.cps):
-            setup = ["TBL other.ctb " + common.hexbytes(OTHER)]
+            setup = ["TBL other.ctb " + common.hexbytes(OTHER), "TBL other2.ctb " + common.hexbytes(OTHER)]
             if s.base_text is not None:
                 setup.append("TBL %s %s" % (s.base, common.hexbytes(s.base_text)))
             ops, tags = [], []
@@ -237,6 +245,7 @@ def run(tier):
             for p in other_probes:
                 op(p, "other-before")
             op("DUMP other.ctb", "other-dump-before")
+            op("ADD other2.ctb 23", "other2-load")          # a third list: compiled, never used, so still open for additions
             op("ADD %s %s" % (s.base, common.hexbytes("# compile, do not finalise")), "compile")
             for i in range(k):
                 txt, kind = s.adds[i]
@@ -249,6 +258,7 @@ def run(tier):
             for p in other_probes:
                 op(p, "other-after")
             op("DUMP other.ctb", "other-dump-after")
+            op("DUMP other2.ctb nofinal", "other2-dump-after")
             use = USES[(si + ci) % len(USES)]
             # the first use
             if use == "FWD":
@@ -275,7 +285,8 @@ def run(tier):
             s.A[k] = c
             casesA.append(c)
     # fresh process with the other list alone, and with each base alone (monotonicity)
-    cOther = common.Case("other", ["TBL other.ctb " + common.hexbytes(OTHER)], other_probes + ["DUMP other.ctb"], {})
+    cOther = common.Case("other", ["TBL other.ctb " + common.hexbytes(OTHER), "TBL other2.ctb " + common.hexbytes(OTHER)],
+                         other_probes + ["ADD other2.ctb 23", "DUMP other2.ctb nofinal", "DUMP other.ctb"], {})
     casesA.append(cOther)
     for si, s in enumerate(seqs):
         if s.mprobes:
@@ -431,7 +442,8 @@ def run(tier):
                 if not (res_key(x) == res_key(y) == res_key(z)):
                     v.violation("C15:other-list-affected", "additions to one list changed the results of another list (%s)" % name, rep)
             if strip(tagged(a, "other-dump-before")[0]) != strip(tagged(a, "other-dump-after")[0]) or \
-                    strip(tagged(a, "other-dump-after")[0]) != strip(cOther.out[-1]):
+                    strip(tagged(a, "other-dump-after")[0]) != strip(cOther.out[-1]) or \
+                    strip(tagged(a, "other2-dump-after")[0]) != strip(cOther.out[-2]):
                 v.violation("C15:other-list-affected:dump", "additions to one list changed the table of another list (%s)" % name, rep)
             # (v) after the first use
             use = a.meta["use"]
